@@ -12,6 +12,21 @@ TB = ("Lean 4.33 kernel; axioms ⊆ {propext, Classical.choice, Quot.sound} (aud
 
 # id -> (category, text, design_ref, technique, extra trusted/assumed note)
 CHECKS = {
+    "C01": ("proof",
+            "Lean theorems C01_* on the EA state machine (both replacement flavours, every objective, g2p, initial population and variation oracle = every seed/operator choice, every generation boundary): the record is an evaluated individual, its fitness the maximum over the whole evaluation log, ph = g2p g, fit = sign·f ph; heap theorems: a stored copy is immune to all later in-place writes (alias counterexample proved). Tied to the ten optimizers by trace replay: the observed offspring batches drive the model, which must agree with the implementation at every generation boundary.",
+            "§6 C01", "Lean 4 proof (invariant by induction over generations) + trace-replay correspondence", "order-only model on Int keys: finite doubles embed order-isomorphically (NaN excluded)"),
+    "C02": ("proof",
+            "Lean theorems C02_*: best-so-far monotone for every pair of generation boundaries; with elitism the last slot holds the record; every slot is index-aligned (ph = g2p g, fit = f ph); in the greedy flavour one step never lowers a slot and overwrites it only by its own at-least-as-good trial or the elite. Tied by trace replay of all ten optimizers incl. the observed trial batches of DE/jDE/SHADE/SHAGA.",
+            "§6 C02", "Lean 4 proof + trace-replay correspondence", "as C01"),
+    "C03": ("proof",
+            "Lean theorems C03_*: the k-th boundary has evaluated (k+1)·pop_size individuals and made k callbacks, at most max(iters,1) boundaries, get_remains_calls formula; the run stops at the FIRST boundary meeting the rule and never earlier; aim on the correct side for min/max; stagnation counter semantics. Tied by trace replay with the true evaluation counts from a fitness wrapper and stopping scenarios at first/middle/last/never generations.",
+            "§6 C03", "Lean 4 proof + trace-replay correspondence", "float subtraction in the aim (sign*optimal - err) is observed, the side lemma is over Int"),
+    "C05": ("proof",
+            "Lean theorem C05_dual: for every configuration and oracle the whole normalised trajectory of (minimization, f) equals that of (maximization, -f), C05_aim: v / -v give the same aim. The code's single point of sign application is what the tie checks: paired runs of all ten optimizers compared generation by generation incl. adaptation state, both traces replayed through the model.",
+            "§6 C05", "Lean 4 proof + differential paired runs + trace replay", "as C01"),
+    "C17": ("proof",
+            "Lean theorems C17_history / C17_first_entry (one entry per executed generation, none without keep_history, entries only ever appended, max = first arg-max of the entry, population_g[0] = init) and heap theorems C17_snapshots / C17_inputs / C17_get (copies are immune to later writes; caller arrays untouched; returned objects are fresh). Tied by deep snapshots taken at record time vs final get_stats(), np.shares_memory, caller-owned init_population compared before/after, for all ten optimizers.",
+            "§6 C17", "Lean 4 proof (state machine + heap model) + trace validation", "Python aliasing is modelled by an explicit heap; that the code follows the copy discipline is observed (shares_memory, snapshots), not proved"),
     "C10": ("proof",
             "Lean theorems C10_* (bit/Gray round trips for all widths, one-bit adjacency of successive Gray codes, grid formula, endpoints, box, injectivity, encode∘decode = id, decode∘encode nearest grid point, fixed output length, bits-from-step) over exact rationals; tied to SamplingGrid/GrayCode by exhaustive correspondence over all bit strings of small widths and all small bits-per-variable vectors.",
             "§6 C10", "Lean 4 proof + exact model/implementation correspondence (exhaustive small widths)", "np.rint ties and float rounding of left+h*k observed at 1e-9, not proved"),
